@@ -303,7 +303,8 @@ def run_case(case):
     data = P.data
     for casc in ["main", {"A": [ords[0]] + ords[1:2], "B": [ords[0]]}]:
         for psel in [None, pops[0]]:
-            for yrs in [None, np.array(spec["years"][:3], dtype=float)]:
+            yy_ = np.array(spec["years"][:4], dtype=float)
+            for yrs in [None, yy_[:3], yy_[:3][::-1].copy(), yy_[rng.permutation(len(yy_))], yy_[:1]]:  # ascending, descending, shuffled, single
                 try:
                     got, tt = C.get_cascade_data(data, fw, casc, pops=psel, year=yrs)
                 except Exception as e:
